@@ -38,8 +38,12 @@ type client struct {
 // sed on a given query
 func (c *client) Subscribe(ctx context.Context, q baseClient.Query) error {
 	err := c.client.Subscribe(ctx, q)
+	if err != nil {
+		// No stream was opened: there is nothing for the response monitor to read
+		return errors.FromGRPC(err)
+	}
 	go c.run(ctx)
-	return errors.FromGRPC(err)
+	return nil
 }
 
 // Poll issues a poll request using the backing client
